@@ -19,6 +19,7 @@ import (
 const (
 	BitsL = uint32(0x1d00ffff) // unit work
 	BitsH = uint32(0x1c7fff80) // about twice the work of BitsL
+	BitsQ = uint32(0x1c3fffc0) // about four times the work of BitsL
 
 	GenesisTime = uint32(1231006505)
 )
@@ -78,6 +79,9 @@ func Slot(label string) string {
 func SlotBits(slot string) uint32 {
 	if strings.HasPrefix(slot, "H") {
 		return BitsH
+	}
+	if strings.HasPrefix(slot, "Q") {
+		return BitsQ
 	}
 	return BitsL
 }
